@@ -28,7 +28,7 @@ META = {
     "text": "Machine-checked theorems about a function-by-function Gallina model of execute_one_step / execute_compound_statement / "
             "execute_if|while|for_statement with statement_positions, YieldException.is_from_loop, current_statement_index, auto_yield and "
             "the task-scope copy: for every body whose yields and loops sit at the top level of the body (loop bodies and branches free of "
-            "yields and loops, loop variables hygienic), every argument list, every await oracle and every number of step grants, the "
+            "yields and loops, except one trailing yield in a while body; loop variables hygienic), every argument list, every await oracle and every number of step grants, the "
             "concatenated step outputs, the result and the locals equal the body run alone; the statement index never decreases and moves "
             "by at most one; the resume table is empty between steps; the await data path returns int/long/bool, string and struct/Option/"
             "Result values unchanged. The general law is refuted on the faithful model by five witnesses (yield in a block, yield in a loop "
@@ -257,6 +257,8 @@ class Gen:
             body = [("set", x, ("-", ("v", x), ("c", 1)))] + self.block(vars_, depth + 1, 3, inner_yield, inner_loop)
             if rng.random() < 0.2:
                 rng.shuffle(body)
+            if self.fragment and rng.random() < 0.4:
+                body.append(("yield",))          # the idiom while (c) { ...; yield; } (inside the proved fragment)
             return ("while", ("<", ("c", 0), ("v", x)), body)
         if self.reuse_for and self.nfor > 0:
             x = 100
